@@ -11,6 +11,7 @@ Proved: `compaction_invisible_partial` (the statement outside the named classes 
 findings) and, without any exclusion, `no_resurrection`.
 -/
 import SwV.Lemmas.C04
+import SwV.Lemmas.C04b
 import SwV.Gen.C04
 namespace SwV.Props.C04
 open SwV.Model.C01 SwV.Model.C04 SwV.Spec.C04 SwV.Lemmas.C04
@@ -356,6 +357,121 @@ theorem emptyBlob_iff (s : CVol) (k : Nat) : EmptyBlob s k ↔ isEmptyBlob s k =
     obtain ⟨o, sz⟩ := e
     simp
 
+/-- … and so is the vacuum-filter class: the theorem's `TtlDropped` (stated over the volume `s0` the copy started from)
+    is the judge's executable `ttlDropped` (computed from the state right before the commit) -/
+theorem ttlDropped_iff (s0 : CVol) (hw : WF s0) (alg nowSec : Nat) (ops : List (Nat × Op)) (k : Nat) :
+    TtlDropped s0 (beforeCommit s0 alg nowSec ops) nowSec k ↔ ttlDropped (beforeCommit s0 alg nowSec ops) nowSec k = true := by
+  obtain ⟨ext, exta, suf, hs⟩ := suf_run (suf_refl (wf_compact hw alg nowSec)) ops
+  have hsnap : (beforeCommit s0 alg nowSec ops).snap = some (snapOf s0 alg nowSec) := by
+    unfold beforeCommit compact
+    rw [runOps_snap]
+    rfl
+  have hvt0 : (beforeCommit s0 alg nowSec ops).v.volTtl = s0.v.volTtl := by
+    unfold beforeCommit
+    rw [runOps_volTtl]
+    rfl
+  generalize hs2 : beforeCommit s0 alg nowSec ops = s2 at *
+  have hs2' : runOps (compact s0 alg nowSec) ops = s2 := hs2
+  rw [hs2'] at hs
+  have hil : s2.ilog = s0.ilog ++ suf := hs.hilog
+  have hlog : s2.v.log = s0.v.log ++ ext := hs.hlog
+  have hats : s2.ats = s0.ats ++ exta := hs.hats
+  have hsuf : suffixOf s2 = suf := by
+    unfold suffixOf
+    rw [hsnap]
+    show s2.ilog.drop s0.ilog.length = suf
+    rw [hil]; simp
+  have hsuf' : s2.ilog.drop s0.ilog.length = suf := by rw [hil]; simp
+  have hdrop : ∀ r a, dropsTtl s2 nowSec r a = dropsTtl s0 nowSec r a := by
+    intro r a
+    unfold dropsTtl volTtlOf
+    rw [hvt0]
+  unfold TtlDropped ttlDropped
+  rw [hsuf, hsuf']
+  cases hsk : lastFor suf k with
+  | some e => simp
+  | none =>
+    have hkey := hs.key k
+    rw [hsk] at hkey
+    have hkey0 : s2.v.idx k = s0.v.idx k := hkey
+    simp only [Option.isNone_none, Bool.true_and, true_and]
+    unfold liveRec
+    rw [hkey0]
+    cases hi : s0.v.idx k with
+    | none => simp
+    | some e =>
+      simp only
+      by_cases hpos : 0 < e.size
+      · simp only [hpos, if_true]
+        have hb := hw.bound k e hi
+        obtain ⟨r, hr⟩ := recAt_of_bound hb.1 hb.2
+        have hr2 : recAt s2.v.log e.off = some r := by rw [hlog]; exact recAt_append_left ext hr
+        have ha2 : atOf s2.ats e.off = atOf s0.ats e.off := by
+          rw [hats]; exact atOf_append_left _ _ hb.1 (by rw [hw.len]; exact hb.2)
+        rw [hr2, ha2]
+        simp only [Option.map_some, hdrop]
+        constructor
+        · rintro ⟨e', r', he', _, hr', hd⟩
+          cases he'
+          rw [hr] at hr'
+          cases hr'
+          exact hd
+        · intro hd
+          exact ⟨e, r, rfl, hpos, hr, hd⟩
+      · simp only [hpos, if_false]
+        constructor
+        · rintro ⟨e', r', he', hp', _⟩
+          cases he'
+          exact absurd hp' hpos
+        · intro h; cases h
+
+/-! ## the index-based algorithm never truncates -/
+
+/-- **Compact2 never truncates**: for EVERY well-formed volume, the index-based copy (`Compact2` /
+    copyDataBasedOnIndexFile: .cpd written in the ascending key order of the loaded .idx, .cpx saved in the same order),
+    every operation list issued while the copy runs, every iteration order of makeupDiff's map: the committed files are
+    such that the reload's integrity check cuts nothing off — the last .idx entry points at the last record of the .dat
+    or is a tombstone with offset 0.  (For the scan-based `Compact` this is FALSE: `truncation_witness`, the recorded
+    finding CommitCompact/dat-truncated-behind-last-index-entry.) -/
+theorem compact2_never_truncates (s0 : CVol) (hw : WF s0) (alg : Nat) (halg : alg ≠ 1) (nowSec : Nat) (ops : List (Nat × Op))
+    (order : List Nat) (t : Nat) : NoTruncation (beforeCommit s0 alg nowSec ops) order t := by
+  have hsnap : (beforeCommit s0 alg nowSec ops).snap = some (snapOf s0 alg nowSec) := by
+    unfold beforeCommit compact
+    rw [runOps_snap]
+    rfl
+  unfold NoTruncation truncates
+  rw [hsnap]
+  simp only
+  cases hm : makeup (beforeCommit s0 alg nowSec ops) (snapOf s0 alg nowSec) order t with
+  | none => rfl
+  | some f =>
+    have ht : TailOK (snapOf s0 alg nowSec).log (snapOf s0 alg nowSec).cpx := by
+      simp only [snapOf, keepOf, halg, if_false]
+      exact tailOK_keepIdx hw nowSec
+    simp [cutAt_none_of_tailOK (makeup_tailOK _ _ _ _ _ hm ht)]
+
+/-- **Compaction by Compact2 is invisible to readers** — `compaction_invisible_partial` without the `NoTruncation`
+    hypothesis: the only excluded inputs are empty blobs and records removed by the vacuum TTL filter -/
+theorem compaction_invisible_compact2_partial (s0 : CVol) (hw : WF s0) (hnz : s0.ilog ≠ []) (alg : Nat) (halg : alg ≠ 1)
+    (nowSec : Nat) (ops : List (Nat × Op)) (order : List Nat) (t t' k : Nat)
+    (hcov : Covers s0 (beforeCommit s0 alg nowSec ops) order)
+    (hne : ¬ EmptyBlob (beforeCommit s0 alg nowSec ops) k)
+    (httl : ¬ TtlDropped s0 (beforeCommit s0 alg nowSec ops) nowSec k) :
+    view (afterCommit s0 alg nowSec ops order t) t' k = view (beforeCommit s0 alg nowSec ops) t' k :=
+  compaction_invisible_partial s0 hw hnz alg nowSec ops order t t' k hcov hne httl
+    (compact2_never_truncates s0 hw alg halg nowSec ops order t)
+
+/-- the same with the judge's executable class predicates as hypotheses -/
+theorem compaction_invisible_compact2_judged (s0 : CVol) (hw : WF s0) (hnz : s0.ilog ≠ []) (alg : Nat) (halg : alg ≠ 1)
+    (nowSec : Nat) (ops : List (Nat × Op)) (order : List Nat) (t t' k : Nat)
+    (hcov : Covers s0 (beforeCommit s0 alg nowSec ops) order)
+    (hne : isEmptyBlob (beforeCommit s0 alg nowSec ops) k = false)
+    (httl : ttlDropped (beforeCommit s0 alg nowSec ops) nowSec k = false) :
+    view (afterCommit s0 alg nowSec ops order t) t' k = view (beforeCommit s0 alg nowSec ops) t' k :=
+  compaction_invisible_compact2_partial s0 hw hnz alg halg nowSec ops order t t' k hcov
+    (fun h => by rw [(emptyBlob_iff _ _).mp h] at hne; cases hne)
+    (fun h => by rw [(ttlDropped_iff s0 hw alg nowSec ops k).mp h] at httl; cases httl)
+
 /-- the statement of the property, literally: reads(commit(compact s) during) = reads(apply during s) -/
 theorem compaction_invisible_vs_uncompacted (s0 : CVol) (hw : WF s0) (hnz : s0.ilog ≠ []) (alg nowSec : Nat) (ops : List (Nat × Op))
     (order : List Nat) (t t' k : Nat)
@@ -412,6 +528,27 @@ example :
         = some ⟨2, 6⟩ := by decide
     rw [h2] at h
     simp at h
+
+
+/-- non-vacuity: the history of `truncation_witness` (write 2, write 1) with the index-based algorithm and a write in flight -/
+example :
+    let s0 := runOps fresh [(1, .write 2 7 (blob "aa")), (2, .write 1 7 (blob "bb"))]
+    WF s0 ∧ s0.ilog ≠ [] ∧ (2 : Nat) ≠ 1 ∧ Covers s0 (beforeCommit s0 2 100 [(3, .write 3 7 (blob "cc"))]) [3] ∧
+    isEmptyBlob (beforeCommit s0 2 100 [(3, .write 3 7 (blob "cc"))]) 1 = false ∧
+    ttlDropped (beforeCommit s0 2 100 [(3, .write 3 7 (blob "cc"))]) 100 1 = false ∧
+    view (afterCommit s0 2 100 [(3, .write 3 7 (blob "cc"))] [3] 5) 9 1 = some (7, blob "bb") ∧
+    truncates (beforeCommit s0 1 100 []) [] 5 = true := by
+  refine ⟨wf_reachable _ _ _, by decide, by decide, ?_, by decide, by decide, by decide, by decide⟩
+  intro k hk
+  have hsuf : (beforeCommit (runOps fresh [(1, .write 2 7 (blob "aa")), (2, .write 1 7 (blob "bb"))]) 2 100
+      [(3, .write 3 7 (blob "cc"))]).ilog.drop (runOps fresh [(1, .write 2 7 (blob "aa")), (2, .write 1 7 (blob "bb"))]).ilog.length
+      = [⟨3, 3, 6⟩] := by decide
+  rw [hsuf] at hk
+  by_cases h3 : k = 3
+  · simp [h3]
+  · exfalso
+    have : ¬ (3 = k) := fun h => h3 h.symm
+    simp [lastFor, this] at hk
 
 
 /-! ## T1: regenerated predicates and the sources the model mirrors -/
